@@ -269,12 +269,17 @@ func (s *Service) UnmarshalJSON(data []byte) error {
 	s.active = NewLoadBalancer(activeTargets)
 	s.active.MarkAllHealthy()
 
-	rolloutTargets, err := NewTargetList(ms.RolloutTargets, ms.TargetOptions)
-	if err != nil {
-		return err
+	// Only a service that had rollout targets gets a rollout load balancer
+	// back; otherwise a restored service would accept a rollout split with no
+	// targets to send the traffic to.
+	if len(ms.RolloutTargets) > 0 {
+		rolloutTargets, err := NewTargetList(ms.RolloutTargets, ms.TargetOptions)
+		if err != nil {
+			return err
+		}
+		s.rollout = NewLoadBalancer(rolloutTargets)
+		s.rollout.MarkAllHealthy()
 	}
-	s.rollout = NewLoadBalancer(rolloutTargets)
-	s.rollout.MarkAllHealthy()
 
 	return s.initialize()
 }
